@@ -101,6 +101,13 @@ def _build_subject(spec):
                                                TlsHandshakeHelloRandomBytes(bytearray(range(28))))
         return TlsHandshakeClientHello(cipher_suites=chosen, random=hello_random, fallback_scsv=bool(spec[2]),
                                        empty_renegotiation_info_scsv=bool(spec[3]))
+    if kind == 'mutated':
+        from simverif import wire
+        cls = corpus.resolve(spec[1])
+        try:
+            return cls.parse_immutable(wire.apply_faults(bytes.fromhex(spec[2]), spec[3]))[0]
+        except Exception:  # the mutated input is rejected: no subject  # pylint: disable=broad-except
+            return None
     if kind == 'factory':
         import random as _random
         from simverif import workload
@@ -335,6 +342,14 @@ def generate(rng, index, tier, extra):  # pylint: disable=unused-argument
             spec = ['default', rng.choice(names)]
         elif sub < 0.5:
             spec = ['factory', rng.choice(FACTORY_SUBJECTS), rng.getrandbits(48)]
+        elif sub < 0.65:
+            # an object parsed from a mutated but still accepted input
+            from simverif import wirefault
+            path = rng.choice(paths)
+            raw = rng.choice(corpus.accepted(path) or [b''])
+            faults = wirefault.token_faults(rng, raw) if wirefault.is_text(raw) and rng.random() < 0.6 else \
+                wirefault.gen_faults(rng, raw, max_faults=1)
+            spec = ['mutated', path, raw.hex(), faults]
         else:
             path = rng.choice(paths)
             spec = ['corpus', path, rng.randrange(64)]
@@ -471,7 +486,7 @@ def _exec_observe(doc, res):
                           'serialising leaves the class-level text encoder as it was', '%s()' % call)
             Serializable.post_text_encoder = encoder_before
             return
-    res.sched_sig = ('observe', spec[0], name, tuple(seen)[:10])
+    res.sched_sig = ('observe', spec[0], name, tuple(seen)[:10], len(edits))
     res.nontrivial = any(outcome != 'ok' for _, outcome in seen) or len(seen) >= 3
     res.stats['runs.observe.' + spec[0]] += 1
     if spec[0] == 'client_hello' and any(o.startswith('raised') for _, o in seen):
